@@ -267,8 +267,14 @@ def r19_6(ctx, prog, crate):
     r11_3(Renamed(ctx, "R19.6"), prog, crate)
 
 
+def r19_7(ctx, prog, crate):
+    from rules.C03 import bench_mode_tables
+    bench_mode_tables(ctx, "R19.7", prog, crate)
+
+
 def run(ctx, prog, crate):
     r19_6(ctx, prog, crate)
+    r19_7(ctx, prog, crate)
     S = Sampling(prog, crate)
     if not ctx.anchor("R19.1", "sampling loop", 1 if S.body is not None and S.loop is not None and S.cond_switch is not None else 0, 1):
         return
